@@ -204,6 +204,21 @@ var tamperOps = []tamperOp{
 		_, p, _ := splitJWT(g.token)
 		return signWith(dec(p), g.alg, g.key, c.other.KID, nil), false
 	}},
+	{"signed-by-published-enc-key", func(g *genuine, c *c02) (string, bool) {
+		// a key that is published for encryption only signs the payload under its own kid
+		if c.other == nil || c.other.Use != "enc" || g.surface == "client-assertion" || g.surface == "request-object" {
+			return "", false
+		}
+		_, p, _ := splitJWT(g.token)
+		return signWith(dec(p), c.other.Alg, c.other.Priv, c.other.KID, nil), false
+	}},
+	{"signed-by-published-enc-key-no-kid", func(g *genuine, c *c02) (string, bool) {
+		if c.other == nil || c.other.Use != "enc" || g.surface == "client-assertion" || g.surface == "request-object" {
+			return "", false
+		}
+		_, p, _ := splitJWT(g.token)
+		return signWith(dec(p), c.other.Alg, c.other.Priv, "", nil), false
+	}},
 	{"unknown-kid", func(g *genuine, c *c02) (string, bool) {
 		_, p, _ := splitJWT(g.token)
 		return signWith(dec(p), g.alg, g.key, "no-such-kid", nil), c.shape == "single-nokid" // a published key without kid may match any header kid
